@@ -3,6 +3,7 @@ import Driver.StoreDriver
 import Driver.ArgDriver
 import Driver.RunnerDriver
 import Driver.CodecDriver
+import Driver.QNameDriver
 open Driver
 
 def main (args : List String) : IO UInt32 := do
@@ -13,5 +14,6 @@ def main (args : List String) : IO UInt32 := do
   | ["arghash"] => loop ArgDriver.stepLine stdin stdout (); return 0
   | ["runner"] => loop RunnerDriver.stepLine stdin stdout {}; return 0
   | ["codec"] => loop CodecDriver.stepLine stdin stdout []; return 0
+  | ["qname"] => loop QNameDriver.stepLine stdin stdout ([] : Memento.QName.CodeBase); return 0
   | ["store"] => loop StoreDriver.stepLine stdin stdout StoreDriver.St.none; return 0
   | _ => IO.eprintln "usage: mmodel <model>"; return 2
